@@ -140,7 +140,8 @@ func patchStubs(specPath, outDir, overlayDir string) error {
 							stubArgs = recvExpr + ", " + stubArgs
 						}
 					}
-					fmt.Fprintf(&body, "if vp.Harness() == %q {\n%s%s(%s)\n", s.Harness, ret, s.Stub, stubArgs)
+					key := s.Harness + "/" + orig
+					fmt.Fprintf(&body, "if vp.Harness() == %q && vp.EnterStub(%q) {\ndefer vp.LeaveStub(%q)\n%s%s(%s)\n", s.Harness, key, key, ret, s.Stub, stubArgs)
 					if ret == "" {
 						body.WriteString("return\n")
 					}
@@ -199,6 +200,8 @@ func stripPos(n ast.Node) {
 			v.If = token.NoPos
 		case *ast.ReturnStmt:
 			v.Return = token.NoPos
+		case *ast.DeferStmt:
+			v.Defer = token.NoPos
 		case *ast.BinaryExpr:
 			v.OpPos = token.NoPos
 		}
